@@ -19,7 +19,8 @@ PROPERTY = "C14"
 LEVEL = "exploration"
 RULE = ("histories of 1..12 (thorough ..20) requests generate(n) [n 1..200, "
         "occasionally ..5000, thorough ..1e5] / skip(n) [n up to 1e10, "
-        "cumulative position <= 1e10] / shape change on a seeded "
+        "cumulative position <= 1e10] / shape change / continue with the "
+        "generator returned by get_similar_fading_generator() on a seeded "
         "JakesSampleGenerator with Fd*Ts in {0} u [1e-5,0.5], Ts in 1e-9..1 "
         "(m*10^-d, plus powers of two), L 1..16, shape None/int/tuple up to "
         "(3,2,2); a start position >= 1e6 is a forced class (about 45% of "
